@@ -1,6 +1,7 @@
 import Proofs.XsdScript
 import Proofs.XsdText
 import Proofs.XsdRel
+import Proofs.ExtractPkgRef
 
 /-!
   C20 — XSD generation mirrors the component's classes and data types.
@@ -22,10 +23,10 @@ open Pyx.Extract
     modeled order), named by their key letters -/
 theorem xsd_complete (d : ClassDiagram) (comp : Nat) :
     (classNodes (xsd d comp)).map (·.attr "name") =
-      (d.classes.filter (fun c => containedIn d.containers comp c.parent)).map (fun c => some c.kl) := by
+      (d.classes.filter (fun c => containedIn d.containers d.pkgrefs comp c.parent)).map (fun c => some c.kl) := by
   unfold xsd
   rw [classNodes_render]
-  show (((d.classes.filter (fun c => containedIn d.containers comp c.parent)).map (xclassAll d)).map renderClass).map _ = _
+  show (((d.classes.filter (fun c => containedIn d.containers d.pkgrefs comp c.parent)).map (xclassAll d)).map renderClass).map _ = _
   simp only [List.map_map]
   apply List.map_congr_left
   intro c _
@@ -36,11 +37,11 @@ theorem xsd_complete (d : ClassDiagram) (comp : Nat) :
     those off the R103 chain (`looseOf`, R103 is conditional) and those on it, the latter in modeled order -/
 theorem xsd_complete_attributes (d : ClassDiagram) (comp : Nat) :
     (classNodes (xsd d comp)).map (fun n => (attributeNodes n).map (fun a => (a.attr "name", a.attr "type"))) =
-      (d.classes.filter (fun c => containedIn d.containers comp c.parent)).map
+      (d.classes.filter (fun c => containedIn d.containers d.pkgrefs comp c.parent)).map
         (fun c => ((looseOf d c.id ++ c.attrs).filterMap (xattr d)).map (fun a => (some a.name, some a.ty))) := by
   unfold xsd
   rw [classNodes_render]
-  show (((d.classes.filter (fun c => containedIn d.containers comp c.parent)).map (xclassAll d)).map renderClass).map _ = _
+  show (((d.classes.filter (fun c => containedIn d.containers d.pkgrefs comp c.parent)).map (xclassAll d)).map renderClass).map _ = _
   simp only [List.map_map]
   apply List.map_congr_left
   intro c _
@@ -58,16 +59,17 @@ theorem xsd_attribute_rule (d : ClassDiagram) (a : Attr) (x : XAttr) :
   xattr_eq_some
 
 /-- the declared simple types (name, restriction base, enumerators in order) are exactly `xtypeOf` of the
-    global data types followed by the data types contained in the component -/
+    global data types followed by the data types contained in the component that are not global (a data type of a global
+    package referred to from the component is both: first loop only) -/
 theorem xsd_complete_types (d : ClassDiagram) (comp : Nat) :
     (simpleTypeNodes (xsd d comp)).map (fun n => (n.attr "name", restrictionBases n, enumerationValues n)) =
       ((d.dts.filter (fun t => isGlobal d.containers t.parent)) ++
-        (d.dts.filter (fun t => containedIn d.containers comp t.parent))).filterMap
+        (d.dts.filter (fun t => containedIn d.containers d.pkgrefs comp t.parent && !isGlobal d.containers t.parent))).filterMap
         (fun t => (xtypeOf d.dts t).map (fun x => (some x.name, [some x.base], x.values.map some))) := by
   unfold xsd
   rw [simpleTypeNodes_render]
   show ((((d.dts.filter (fun t => isGlobal d.containers t.parent)).filterMap (xtypeOf d.dts)) ++
-    ((d.dts.filter (fun t => containedIn d.containers comp t.parent)).filterMap (xtypeOf d.dts))).map renderType).map _ = _
+    ((d.dts.filter (fun t => containedIn d.containers d.pkgrefs comp t.parent && !isGlobal d.containers t.parent)).filterMap (xtypeOf d.dts))).map renderType).map _ = _
   rw [← List.filterMap_append, List.map_map, List.map_filterMap]
   apply filterMap_congr'
   intro t _
@@ -117,24 +119,29 @@ theorem xsd_core_table_generated :
 
 /-! ### the same against a relational specification
 
-  `Reaches cs comp p` — the containment chain PE_PE -> EP_PKG | C_C -> … of `p` reaches the component;
-  `InComp cs p` — some C_C row lies on that chain (so `¬ InComp` = global); `BaseName dts dt n` — following user types
+  `Reaches cs rf comp p` — the containment chain PE_PE -> EP_PKG | C_C -> … of `p`, continued from a package over every
+  EP_PKGREF row `rf` that refers to it at the PE_PE of the referring package, reaches the component;
+  `InComp cs p` — some C_C row lies on the OWN containment chain (so `¬ InComp` = global: `is_global` follows no reference); `BaseName dts dt n` — following user types
   over R18 from `dt` ends at a core type 1..5 or an enumeration with the NON-EMPTY name `n`.  Under `XWF` (acyclic
-  containment and user-type chains; there Python terminates and the fuel of the model is never exhausted) the functions
+  containment + reference graph and user-type chains; there Python terminates and the fuel of the model is never exhausted) the functions
   of the model decide exactly these relations. -/
 
-/-- what the scope functions and the type walk of the model mean -/
+/-- what the scope functions and the type walk of the model mean; an element inside the component has a component on its
+    own chain when no reference is used (4th clause: then it is not global) — with references it may be global as well
+    (5th clause: only if some EP_PKGREF row with both packages existing is there) -/
 theorem xsd_spec_meaning {d : ClassDiagram} (xwf : XWF d) (comp : Nat) :
-    (∀ p, containedIn d.containers comp p = true ↔ Reaches d.containers comp p) ∧
+    (∀ p, containedIn d.containers d.pkgrefs comp p = true ↔ Reaches d.containers d.pkgrefs comp p) ∧
     (∀ p, isGlobal d.containers p = true ↔ ¬ InComp d.containers p) ∧
     (∀ dt n, baseTypeName d.dts dt = some n ↔ BaseName d.dts dt n) ∧
-    (∀ p, Reaches d.containers comp p → InComp d.containers p) :=
+    (∀ p, Reaches d.containers [] comp p → InComp d.containers p) ∧
+    (∀ p, Reaches d.containers d.pkgrefs comp p → InComp d.containers p ∨
+      ∃ r ∈ d.pkgrefs, (findContainer d.containers false r.referring).isSome ∧ (findContainer d.containers false r.referred).isSome) :=
   ⟨fun p => contained_iff xwf.tree comp p, fun p => global_iff xwf.tree p, fun dt n => baseTypeName_iff xwf.chain dt n,
-   fun _ h => reaches_inComp h⟩
+   fun _ h => reaches_inComp h, fun _ h => reaches_inComp_or_ref h⟩
 
-/-- class elements: exactly the classes whose containment chain reaches the component -/
+/-- class elements: exactly the classes whose containment chain (continued over package references) reaches the component -/
 theorem xsd_complete_rel {d : ClassDiagram} (xwf : XWF d) (comp : Nat) (xc : XClass) :
-    xc ∈ (xsdSpec d comp).classes ↔ ∃ c ∈ d.classes, Reaches d.containers comp c.parent ∧ xc = xclassAll d c :=
+    xc ∈ (xsdSpec d comp).classes ↔ ∃ c ∈ d.classes, Reaches d.containers d.pkgrefs comp c.parent ∧ xc = xclassAll d c :=
   xsd_classes_rel xwf.tree comp xc
 
 /-- attributes: declared iff not derived and the data type of the attribute (for a referential one: of the base
@@ -145,12 +152,12 @@ theorem xsd_attribute_rule_rel {d : ClassDiagram} (xwf : XWF d) (a : Attr) (x : 
       a.isDerived = false ∧ x.name = a.name ∧ ∃ dt, attrDt d a = some dt ∧ BaseName d.dts dt x.ty :=
   xattr_rel xwf.chain a x
 
-/-- simple types: the declarable data types that are global (no component on their chain) or whose chain reaches
-    the component; a user type is declarable iff its base is a core type 1..5, an enumeration or a user type with a
+/-- simple types: the declarable data types that are global (no component on their chain) or whose chain (continued over
+    package references) reaches the component; a user type is declarable iff its base is a core type 1..5, an enumeration or a user type with a
     NON-EMPTY name (`if base_name:`) -/
 theorem xsd_types_rule_rel {d : ClassDiagram} (xwf : XWF d) (comp : Nat) :
     (∀ x, x ∈ (xsdSpec d comp).types ↔
-      ∃ t ∈ d.dts, (¬ InComp d.containers t.parent ∨ Reaches d.containers comp t.parent) ∧ xtypeOf d.dts t = some x) ∧
+      ∃ t ∈ d.dts, (¬ InComp d.containers t.parent ∨ Reaches d.containers d.pkgrefs comp t.parent) ∧ xtypeOf d.dts t = some x) ∧
     (∀ b n, typeNameOf d.dts b = some n ↔
       ∃ t, findDt d.dts b = some t ∧ t.name = n ∧ n ≠ "" ∧
         ((∃ k, t.kind = .core k ∧ 1 ≤ k ∧ k ≤ 5) ∨ (∃ es, t.kind = .enum es) ∨ (∃ b', t.kind = .user b'))) :=
@@ -363,25 +370,81 @@ theorem xsd_unknown_component (d : ClassDiagram) (name : String)
   unfold xsdByName; rw [h]; rfl
 
 /-- `build_schema` declares the global data types and then those contained in the component THAT ARE NOT GLOBAL
-    (`is_contained_in(s_dt, c_c) and not is_global(s_dt)`, so that a data type is never declared twice).  In the model - which
-    has no package references - a contained data type is never global, so the second condition filters nothing and `xsdSpec`
-    is the list the code produces; no data type row is declared by both loops.
-    COROLLARY about the model only: the defect this condition repairs (commit 6208c4e: a data type of a global package that a
-    package of the component refers to via EP_PKGREF was declared twice) needs a package reference, which the model cannot
-    express; it is decided by D alone (harness family `pkgref`, PKGREF_TO_GLOBAL). -/
+    (`is_contained_in(s_dt, c_c) and not is_global(s_dt)`): no data type row is taken by both loops, and the rows taken are
+    exactly the global-or-contained ones.  WITHOUT package references a contained data type is never global, the second
+    condition filters nothing and nothing is global and contained (the statement the reference-free model had, now under
+    its hypothesis `d.pkgrefs = []`). -/
 theorem xsd_type_loops_disjoint (d : ClassDiagram) (comp : Nat) :
-    d.dts.filter (fun t => containedIn d.containers comp t.parent && !isGlobal d.containers t.parent) =
-      d.dts.filter (fun t => containedIn d.containers comp t.parent) ∧
-    ∀ t ∈ d.dts, ¬ (isGlobal d.containers t.parent = true ∧ containedIn d.containers comp t.parent = true) := by
+    (∀ t, ¬ (t ∈ d.dts.filter (fun t => isGlobal d.containers t.parent) ∧
+             t ∈ d.dts.filter (fun t => containedIn d.containers d.pkgrefs comp t.parent && !isGlobal d.containers t.parent))) ∧
+    (∀ t, t ∈ declaredDts d comp ↔
+      t ∈ d.dts ∧ (isGlobal d.containers t.parent = true ∨ containedIn d.containers d.pkgrefs comp t.parent = true)) ∧
+    (d.pkgrefs = [] →
+      d.dts.filter (fun t => containedIn d.containers d.pkgrefs comp t.parent && !isGlobal d.containers t.parent) =
+        d.dts.filter (fun t => containedIn d.containers d.pkgrefs comp t.parent) ∧
+      ∀ t ∈ d.dts, ¬ (isGlobal d.containers t.parent = true ∧ containedIn d.containers d.pkgrefs comp t.parent = true)) := by
+  refine ⟨?_, fun t => declaredDts_mem, ?_⟩
+  · rintro t ⟨h1, h2⟩
+    have g1 := (List.mem_filter.mp h1).2
+    have g2 := (List.mem_filter.mp h2).2
+    simp only [Bool.and_eq_true, Bool.not_eq_true'] at g2
+    rw [g2.2] at g1; cases g1
+  · intro h
+    rw [h]
+    constructor
+    · apply List.filter_congr
+      intro t _
+      cases h : containedIn d.containers [] comp t.parent with
+      | false => rfl
+      | true => simp [contained_not_global_plain _ _ _ h]
+    · rintro t _ ⟨hg, hc⟩
+      rw [contained_not_global_plain _ _ _ hc] at hg
+      cases hg
+
+/-- THE STATEMENT OF FIX 6208c4e: a declarable data type that is global AND contained in the component (a data type of a
+    global package that a package of the component refers to via EP_PKGREF) is declared exactly once — as is every other
+    declarable data type in scope (data type names distinct, `XWF`) -/
+theorem xsd_global_contained_declared_once {d : ClassDiagram} (xwf : XWF d) (comp : Nat) {t : DataType} {x : XType}
+    (ht : t ∈ d.dts) (hg : isGlobal d.containers t.parent = true)
+    (_hc : containedIn d.containers d.pkgrefs comp t.parent = true) (hx : xtypeOf d.dts t = some x) :
+    ((xsdSpec d comp).types.map XType.name).count t.name = 1 ∧ x ∈ (xsdSpec d comp).types :=
+  xsd_declared_once comp xwf.dtNames ht (Or.inl hg) hx
+
+/-- … the general form: global or contained (or both) -> exactly one `xs:simpleType` of that name -/
+theorem xsd_declared_exactly_once {d : ClassDiagram} (xwf : XWF d) (comp : Nat) {t : DataType} {x : XType}
+    (ht : t ∈ d.dts)
+    (hs : isGlobal d.containers t.parent = true ∨ containedIn d.containers d.pkgrefs comp t.parent = true)
+    (hx : xtypeOf d.dts t = some x) :
+    ((xsdSpec d comp).types.map XType.name).count t.name = 1 ∧ x ∈ (xsdSpec d comp).types :=
+  xsd_declared_once comp xwf.dtNames ht hs hx
+
+/-- WHAT A REFERENCE ADDS to the schema: package `r.referring` lies inside the component and refers to `r.referred` —
+    every class of `r.referred` gets its element, every declarable data type of `r.referred` its simple type -/
+theorem xsd_reference_declared {d : ClassDiagram} (xwf : XWF d) (comp : Nat) {r : PkgRef} {kp kq : Container}
+    (hr : r ∈ d.pkgrefs) (hp : findContainer d.containers false r.referred = some kp)
+    (hq : findContainer d.containers false r.referring = some kq)
+    (hc : containedIn d.containers d.pkgrefs comp kq.parent = true) :
+    (∀ c ∈ d.classes, c.parent = .pkg r.referred → xclassAll d c ∈ (xsdSpec d comp).classes) ∧
+    (∀ t ∈ d.dts, t.parent = .pkg r.referred → ∀ x, xtypeOf d.dts t = some x →
+      x ∈ (xsdSpec d comp).types ∧ ((xsdSpec d comp).types.map XType.name).count t.name = 1) := by
+  have hin : containedIn d.containers d.pkgrefs comp (.pkg r.referred) = true :=
+    contained_of_reference xwf.tree hr hp hq hc
   constructor
-  · apply List.filter_congr
-    intro t _
-    cases h : containedIn d.containers comp t.parent with
-    | false => rfl
-    | true => simp [contained_not_global _ _ _ h]
-  · rintro t _ ⟨hg, hc⟩
-    rw [contained_not_global _ _ _ hc] at hg
-    cases hg
+  · intro c hcm hpar
+    exact (xsd_classes_rel xwf.tree comp _).mpr ⟨c, hcm, hpar ▸ (contained_iff xwf.tree comp _).mp hin, rfl⟩
+  · intro t ht hpar x hx
+    have := xsd_declared_once comp xwf.dtNames ht (Or.inr (hpar ▸ hin)) hx
+    exact ⟨this.2, this.1⟩
+
+/-- CONSERVATIVE EXTENSION: a diagram without EP_PKGREF rows gives the schema of the reference-free model — global types,
+    then the types whose plain containment walk (`containedFuelPlain`) reaches the component; the classes likewise -/
+theorem xsd_no_pkgref (d : ClassDiagram) (comp : Nat) (h : d.pkgrefs = []) :
+    (xsdSpec d comp).types =
+      (d.dts.filter (fun t => isGlobal d.containers t.parent)).filterMap (xtypeOf d.dts) ++
+      (d.dts.filter (fun t => containedFuelPlain d.containers comp (d.containers.length + 1) t.parent)).filterMap (xtypeOf d.dts) ∧
+    (xsdSpec d comp).classes =
+      (d.classes.filter (fun c => containedFuelPlain d.containers comp (d.containers.length + 1) c.parent)).map (xclassAll d) :=
+  xsdSpec_no_pkgref d comp h
 
 /-! ### non-vacuity -/
 
@@ -405,7 +468,7 @@ theorem d1_xwf : XWF d1 := by
   · constructor <;> decide
   · exact ⟨⟨fun p => match p with
         | .none => 0 | .comp 6 => 1 | .pkg 5 => 2 | .pkg 7 => 1 | _ => 0,
-      by decide, by intro p; simp only [d1, List.length_cons, List.length_nil]; split <;> omega⟩⟩
+      by decide, (fun r hr => by cases hr), by intro p; simp only [d1, List.length_cons, List.length_nil]; split <;> omega⟩⟩
   · refine ⟨⟨fun i => if i = 51 then 1 else if i = 52 then 1 else 0, ?_,
       by intro i; simp only [d1, List.length_cons, List.length_nil]; split <;> (try split) <;> omega⟩⟩
     intro t ht b hk
@@ -489,11 +552,94 @@ example : nodeText [] (.node "a" [("k", "x&y"), ("m", "")] [.node "b" [("v", "<"
     "<a k=\"x&amp;y\" m=\"\">\n    <b v=\"&lt;\"/>\n</a>\n".toList := by decide
 
 
-/-- the type loops on d1: Color and MyInt (package Pkg of the component) come from the second loop only, the core types
-    from the first only -/
-example : (d1.dts.filter (fun t => containedIn d1.containers 6 t.parent && !isGlobal d1.containers t.parent)).map (·.name) =
+/-- the type loops on d1 (no package reference): Color and MyInt (package Pkg of the component) come from the second loop
+    only, the core types from the first only; nothing is global and contained -/
+example : (d1.dts.filter (fun t => containedIn d1.containers d1.pkgrefs 6 t.parent && !isGlobal d1.containers t.parent)).map (·.name) =
     ["Color", "MyInt"] ∧
-    ∀ t ∈ d1.dts, ¬ (isGlobal d1.containers t.parent = true ∧ containedIn d1.containers 6 t.parent = true) :=
-  ⟨by rw [(xsd_type_loops_disjoint d1 6).1]; decide, (xsd_type_loops_disjoint d1 6).2⟩
+    ∀ t ∈ d1.dts, ¬ (isGlobal d1.containers t.parent = true ∧ containedIn d1.containers d1.pkgrefs 6 t.parent = true) :=
+  ⟨by rw [((xsd_type_loops_disjoint d1 6).2.2 rfl).1]; decide, ((xsd_type_loops_disjoint d1 6).2.2 rfl).2⟩
+
+example : (xsdSpec d1 6).types =
+    (d1.dts.filter (fun t => isGlobal d1.containers t.parent)).filterMap (xtypeOf d1.dts) ++
+    (d1.dts.filter (fun t => containedFuelPlain d1.containers 6 (d1.containers.length + 1) t.parent)).filterMap (xtypeOf d1.dts) :=
+  (xsd_no_pkgref d1 6 rfl).1
+
+/-! ### non-vacuity with a PACKAGE REFERENCE -/
+
+/-- d1 plus: package Ref (8) inside component Comp REFERS to the global package Other (7), which holds the user type
+    Weekday and now also the class CAT (whose `mood` is a Weekday) — the situation of fix 6208c4e: Weekday is global AND
+    contained in Comp -/
+def d1Ref : ClassDiagram :=
+  { d1 with
+    containers := d1.containers ++ [⟨false, 8, "Ref", .comp 6⟩],
+    classes := d1.classes ++ [⟨4, "CAT", [⟨41, "id", .base 102⟩, ⟨42, "mood", .base 52⟩], [⟨0, [41]⟩], .pkg 7⟩],
+    pkgrefs := [⟨8, 7⟩] }
+
+theorem d1Ref_xwf : XWF d1Ref := by
+  refine ⟨?_, by decide, by decide, ?_, ?_, rfl⟩
+  · constructor <;> decide
+  · exact TreeOk.of_rank (fun p => match p with
+        | .none => 0 | .comp 6 => 1 | .pkg 5 => 2 | .pkg 7 => 2 | .pkg 8 => 2 | _ => 0)
+      (by decide) (by decide)
+      (by intro p; simp only [d1Ref, d1, List.length_append, List.length_cons, List.length_nil]; split <;> omega)
+  · refine ⟨⟨fun i => if i = 51 then 1 else if i = 52 then 1 else 0, ?_,
+      by intro i; simp only [d1Ref, d1, List.length_cons, List.length_nil]; split <;> (try split) <;> omega⟩⟩
+    intro t ht b hk
+    simp only [d1Ref, d1, List.mem_cons, List.not_mem_nil, or_false] at ht
+    rcases ht with rfl | rfl | rfl | rfl | rfl | rfl | rfl | rfl <;> simp at hk <;> subst hk <;> decide
+
+/-- the model computes it: CAT is an element of Comp, Weekday is declared once (by the first loop), and without the
+    reference row CAT is not there -/
+example : (xsdSpec d1Ref 6).classes.map (·.kl) = ["OWN", "DOG", "LSH", "CAT"] ∧
+    (xsdSpec d1Ref 6).types.map XType.name = ["boolean", "integer", "string", "Weekday", "Color", "MyInt"] ∧
+    (xsdSpec { d1Ref with pkgrefs := [] } 6).classes.map (·.kl) = ["OWN", "DOG", "LSH"] ∧
+    ((xsdSpec d1Ref 6).classes.map (fun c => c.attrs.map (fun a => (a.name, a.ty)))).getLast? =
+      some [("id", "integer"), ("mood", "Color")] := by decide
+
+/-- `xsd_global_contained_declared_once` applied: Weekday is global AND contained in Comp, and has one declaration -/
+example : ((xsdSpec d1Ref 6).types.map XType.name).count "Weekday" = 1 ∧
+    XType.restriction "Weekday" "Color" ∈ (xsdSpec d1Ref 6).types :=
+  xsd_global_contained_declared_once d1Ref_xwf 6 (t := ⟨52, "Weekday", .user 50, .pkg 7⟩) (by decide) (by decide) (by decide)
+    (by decide)
+
+/-- `xsd_type_loops_disjoint` on d1Ref: Weekday satisfies BOTH conditions of `build_schema`, and is in the first list only -/
+example : (isGlobal d1Ref.containers (.pkg 7) = true ∧ containedIn d1Ref.containers d1Ref.pkgrefs 6 (.pkg 7) = true) ∧
+    ¬ ((⟨52, "Weekday", .user 50, .pkg 7⟩ : DataType) ∈ d1Ref.dts.filter (fun t => isGlobal d1Ref.containers t.parent) ∧
+       (⟨52, "Weekday", .user 50, .pkg 7⟩ : DataType) ∈ d1Ref.dts.filter
+         (fun t => containedIn d1Ref.containers d1Ref.pkgrefs 6 t.parent && !isGlobal d1Ref.containers t.parent)) :=
+  ⟨by decide, (xsd_type_loops_disjoint d1Ref 6).1 _⟩
+
+/-- `xsd_reference_declared` applied to the row 8 -> 7: CAT gets its element, Weekday its simple type (once) -/
+example : xclassAll d1Ref ⟨4, "CAT", [⟨41, "id", .base 102⟩, ⟨42, "mood", .base 52⟩], [⟨0, [41]⟩], .pkg 7⟩ ∈ (xsdSpec d1Ref 6).classes ∧
+    XType.restriction "Weekday" "Color" ∈ (xsdSpec d1Ref 6).types :=
+  have h := xsd_reference_declared d1Ref_xwf 6 (r := ⟨8, 7⟩) (kp := ⟨false, 7, "Other", .none⟩)
+    (kq := ⟨false, 8, "Ref", .comp 6⟩) (by decide) (by decide) (by decide) (by decide)
+  ⟨h.1 _ (by decide) rfl, (h.2 ⟨52, "Weekday", .user 50, .pkg 7⟩ (by decide) rfl _ (by decide)).1⟩
+
+/-- `xsd_complete_rel` / `xsd_types_rule_rel` on d1Ref: from membership to a chain with a reference step and back -/
+example : ∃ c ∈ d1Ref.classes, Reaches d1Ref.containers d1Ref.pkgrefs 6 c.parent ∧ c.kl = "CAT" := by
+  have h : xclassAll d1Ref ⟨4, "CAT", [⟨41, "id", .base 102⟩, ⟨42, "mood", .base 52⟩], [⟨0, [41]⟩], .pkg 7⟩ ∈
+      (xsdSpec d1Ref 6).classes := by decide
+  obtain ⟨c, hc, hr, he⟩ := (xsd_complete_rel d1Ref_xwf 6 _).mp h
+  refine ⟨c, hc, hr, ?_⟩
+  have := congrArg XClass.kl he
+  simpa [xclassAll] using this.symm
+
+example : XType.restriction "Weekday" "Color" ∈ (xsdSpec d1Ref 6).types :=
+  ((xsd_types_rule_rel d1Ref_xwf 6).1 _).mpr ⟨⟨52, "Weekday", .user 50, .pkg 7⟩, by decide,
+    Or.inr (.ref (k := ⟨false, 7, "Other", .none⟩) (r := ⟨8, 7⟩) (kq := ⟨false, 8, "Ref", .comp 6⟩) (by decide) (by decide) rfl
+      (by decide) (.here (k := ⟨true, 6, "Comp", .none⟩) (by decide))), by decide⟩
+
+/-- the edit theorems on a diagram with a reference (`xsd_edit_commutes` applied): a new data type in the referred GLOBAL
+    package is applicable and is inserted at the end of the FIRST loop's declarations (position 4, before Color), although
+    it is contained in the component as well; moving CAT out of the referred package drops its element -/
+example : xsdSpec (applyXEdit (.addType ⟨60, "Shade", .user 50, .pkg 7⟩) d1Ref) 6 =
+    specEdit (xresolve d1Ref 6 (.addType ⟨60, "Shade", .user 50, .pkg 7⟩)) (xsdSpec d1Ref 6) :=
+  xsd_edit_commutes d1Ref_xwf (.addType ⟨60, "Shade", .user 50, .pkg 7⟩)
+    (show FreshType d1Ref _ ∧ _ from ⟨⟨by decide, by decide, by decide, by decide⟩, by decide⟩) 6
+
+example : (xsdSpec (applyXEdit (.addType ⟨60, "Shade", .user 50, .pkg 7⟩) d1Ref) 6).types.map XType.name =
+    ["boolean", "integer", "string", "Weekday", "Shade", "Color", "MyInt"] ∧
+    (xsdSpec (applyXEdit (.moveClass 4 .none) d1Ref) 6).classes.map (·.kl) = ["OWN", "DOG", "LSH"] := by decide
 
 end PyxProps.C20
